@@ -102,6 +102,12 @@ CLAIMED["C19"] = (
     "Trusted: the nested-tuple tree model and oracles in obligations/sx_c19.py, numpy, z3 as enumeration driver. tree.pyx / upgma.pyx / nj.pyx are checked as compiled black boxes (a .pyx edit is only seen after the extension is rebuilt). Outside: float rounding beyond 1e-4, n > 5, Newick strings not produced by the writer.",
     "DESIGN.md §4 C19")
 
+CLAIMED["C10"] = (
+    "bounded symbolic execution of the selector / mask / similarity kernels lowered from the .pyx source (z3, symbolic int64 sort keys, masks, score matrices) plus solver-driven case split over the compiled k-mer tables and selectors against set/loop definitions",
+    "Bounded model checking. Class S (KX engine, source level): selector.pyx:_minimize with both argcummin passes (2..4 (6) k-mers, every window, symbolic int64 keys: leftmost minimum per window, duplicates handling, memory safety); kmertable.pyx:_to_kmer_mask (symbolic masks, contiguous and spaced models, reads stay inside the buffer); kmersimilarity.pyx:similar_kmers (symbolic symmetric matrices -64..64, symbolic threshold: result == brute-force set, i.e. the pruning bound is admissible); kmeralphabet.pyx k-mer decomposition (shared with C03). Class E (compiled modules): every pair of reference sequences up to the stated length x masks x bucket counts through all six builders and pickling; every query up to the stated length against a menu of references (match / match_table / match_kmer_selection, masks); ScoreThresholdRule for every threshold over a matrix menu in both table kinds; the four selectors with four permutations on every sequence up to the stated length; codes >= 2^32 in the bucketed table.",
+    "Trusted: the set/loop models in obligations/sx_c10.py, the kx lowering (validated against the compiled module on concrete vectors each run), z3. kmertable.pyx pointer-array code (_count_kmers/_add_kmers/_append_entries/_pickle_c_arrays, C++ with raw pointers) is NOT lowered: it is covered as a compiled black box only, so an edit there is seen only after the extension is rebuilt. Outside: sequences and windows longer than the bounds, alphabets > 4 symbols (except the 200-symbol large-code obligation), float rounding of the min-code threshold (codes whose float64 image equals the threshold), hash quality of bucket_number.",
+    "DESIGN.md §4 C10")
+
 NOT_APPLICABLE = {
     "C15": "float results of numpy/LAPACK (linalg solves, trigonometry, argmin over float images): no integer/string logic in front of the C boundary that a solver could reason about; an abstraction over the reals would verify a model of numpy, not the code (DESIGN §6)",
     "C16": "optimality/properness come from np.linalg.svd/det (LAPACK behind FFI) on float32 data; no encodable source; z3 terms cannot pass astype(float32) (DESIGN §6)",
